@@ -1651,7 +1651,51 @@ pub fn quant_fine(r: &mut Rng, n: usize, out: &mut Vec<String>) {
     let mut left = n as i64;
     while left > 0 {
         out.push("quant new".to_string());
-        match r.below(8) {
+        match r.below(10) {
+            8 => {
+                // full swings inside the widened window of one note: alternately just under its upper edge and just over its
+                // lower edge, k times, then a probe a little outside the plain bucket on either side
+                let note = r.range(1, 118) as f32;
+                let ss = note / 12.0;
+                let (w, h) = (1.0f32 / 12.0, 1.0f32 / 120.0);
+                out.push(format!("convert {}", b(ss + 0.5 * w)));
+                let k = r.pick(&[1u64, 2, 3, 7, 14, 15, 16, 17, 31, 40]);
+                for _ in 0..k {
+                    out.push(format!("convert {}", b(ss + w + h * r.pick(&[0.2f32, 0.5, 0.9]))));
+                    out.push(format!("convert {}", b(ss - h * r.pick(&[0.2f32, 0.5, 0.9]))));
+                }
+                let d = r.pick(&[1.05f32, 1.15, 1.3, 1.9, -0.05, -0.15, -0.3, -0.9]) * w;
+                out.push(format!("convert {}", b(ss + d)));
+                out.push(format!("convert {}", b(ss + d)));
+                left -= 2 * k as i64 + 4;
+            }
+            9 => {
+                // forbid a whole scale of k notes in one call whose list ends with a note outside the scale (the rescue of
+                // the "cannot forbid everything" rule then brings in an outsider), then rebuild a scale around it
+                let k = r.range(1, 8) as usize;
+                let mut notes: Vec<u64> = (0..12).collect();
+                for i in 0..12 {
+                    let j = r.range(i as u64, 11) as usize;
+                    notes.swap(i, j);
+                }
+                let scale: Vec<u64> = notes[..k].to_vec();
+                let outsider = notes[k];
+                let others: Vec<String> = notes[k..].iter().map(|x| x.to_string()).collect();
+                out.push(format!("forbid {}", others.join(" ")));
+                let mut list: Vec<String> = scale.iter().map(|x| x.to_string()).collect();
+                list.push(outsider.to_string());
+                out.push(format!("forbid {}", list.join(" ")));
+                out.push(format!("convert {}", quant_input(r)));
+                let back: Vec<String> = (0..r.range(1, 3)).map(|_| r.below(12).to_string()).collect();
+                out.push(format!("allow {}", back.join(" ")));
+                if r.chance(1, 2) {
+                    out.push(format!("forbid {}", outsider));
+                }
+                for _ in 0..4 {
+                    out.push(format!("convert {}", quant_input(r)));
+                }
+                left -= 10;
+            }
             0 => {
                 // k edits between two conversions of the same input
                 let v = quant_input(r);
